@@ -64,7 +64,7 @@ def cases(tier, seed):
     out.append({"kind": "file_all", "tol": 0.1, "atom_format": "full"})
     out.append({"kind": "file_all", "tol": 0.1, "atom_format": "atomic"})
     out.append({"kind": "file_all", "tol": 0.01, "atom_format": "full"})
-    nfile = 40 if tier == "quick" else 600
+    nfile = 40 if tier == "quick" else 30000
     for i in range(nfile):
         k = int(rng.integers(1, 9))
         chosen = [els[j] for j in rng.choice(len(els), size=k, replace=False)]
